@@ -394,8 +394,11 @@ fn vals(ty: &Ty) -> Vec<(String, Val)> {
         out.push((format!("[{}]", l), Val::List(vec![v.clone()])));
         out.push((format!("[conforming, {}]", l), Val::List(vec![good.clone(), v.clone()])));
         // a null item before the varied one: the items after a null item are judged like the others
-        out.push((format!("[null, {}]", l), Val::List(vec![Val::Null, v.clone()])));
-        out.push((format!("[conforming, null, {}]", l), Val::List(vec![good.clone(), Val::Null, v.clone()])));
+        // (for items that are not collections themselves: nested collections would multiply the value set fourfold per level)
+        if item_type(&it).is_none() {
+          out.push((format!("[null, {}]", l), Val::List(vec![Val::Null, v.clone()])));
+          out.push((format!("[conforming, null, {}]", l), Val::List(vec![good.clone(), Val::Null, v.clone()])));
+        }
       }
       out.push(("empty-list".into(), Val::List(vec![])));
       out.push(("bare-conforming-item".into(), good.clone()));
@@ -557,9 +560,15 @@ fn all_types(thorough: bool) -> Vec<Ty> {
     }
     for w in wraps(x) {
       out.push(w.clone());
-      // thorough: one more level over three bases
-      if thorough && matches!(x.base(), Base::Number | Base::Date | Base::DateTime) {
-        out.extend(wraps(&w));
+      // thorough: one more level over the number base, with the four plain wrappers (reference, collection of reference,
+      // component, collection of component): the evaluators of the generated models are never freed (the code base builds
+      // reference cycles), so the total size of the models is what bounds this tier
+      if thorough && matches!(x.base(), Base::Number) {
+        let plain_number = Ty::Simple(Base::Number, false);
+        out.push(Ty::Ref(Box::new(w.clone()), false));
+        out.push(Ty::CollRef(Box::new(w.clone())));
+        out.push(Ty::Comp(vec![("a".into(), w.clone()), ("b".into(), plain_number.clone())]));
+        out.push(Ty::CollComp(vec![("a".into(), w.clone()), ("b".into(), plain_number)]));
       }
     }
   }
@@ -749,6 +758,16 @@ pub fn run() {
     open: AtomicU64::new(0),
   };
   let types = all_types(thorough);
+  if std::env::var("C11_STATS").is_ok() {
+    let mut sizes: Vec<(usize, usize, String)> = types.iter().map(|t| { let v = vals(t); (v.len(), v.iter().map(|x| x.1.text().len()).sum::<usize>(), t.shape()) }).collect();
+    sizes.sort();
+    for d in 1..=5 {
+      let sel: Vec<&Ty> = types.iter().filter(|t| t.depth() == d).collect();
+      eprintln!("depth {} types {} values {}", d, sel.len(), sel.iter().map(|t| vals(t).len()).sum::<usize>());
+    }
+    eprintln!("types {} total values {} total text {} largest {:?}", types.len(), sizes.iter().map(|s| s.0).sum::<usize>(), sizes.iter().map(|s| s.1).sum::<usize>(), sizes.iter().rev().take(3).collect::<Vec<_>>());
+    std::process::exit(0);
+  }
   types.par_iter().for_each(|ty| check_type(&run, &cnt, ty));
   if let Some(t) = types.get(types.len() / 2) {
     run.sample(json!({"type": t.shape(), "base": t.base().type_ref(), "values": vals(t).len()}));
@@ -758,7 +777,7 @@ pub fn run() {
   run.set("traces_validated_against_impl", json!(cnt.compared.load(Ordering::Relaxed)));
   run.set("evaluations", json!(cnt.evals.load(Ordering::Relaxed)));
   run.set("distinct_nontrivial", json!(cnt.nontrivial.load(Ordering::Relaxed)));
-  run.set("rule", json!("(type tree, position, value) triples, distinct by construction, whose prescribed result is not null; type trees = 8 built-in typeRefs + simple types with/without allowed values + every wrapper (reference with/without own allowed values, collection of simple, collection of referenced, component, collection of component) applied up to depth 3 (quick: depth 3 over number/date/dateTime; thorough: all eight bases, and depth 4 over number/date/dateTime); values = every atom of every kind inside and outside the allowed values, null, list, context at every position, plus missing / extra / reordered entries, empty list, bare item, list of list; output side adds singleton wrappings and bare items, through decision, knowledge model and decision service output variables"));
+  run.set("rule", json!("(type tree, position, value) triples, distinct by construction, whose prescribed result is not null; type trees = 8 built-in typeRefs + simple types with/without allowed values + every wrapper (reference with/without own allowed values, collection of simple, collection of referenced, component, collection of component) applied up to depth 3 (quick: depth 3 over number/date/dateTime; thorough: all eight bases, and one more level of the four plain wrappers over number); values = every atom of every kind inside and outside the allowed values, null, list, context at every position, plus missing / extra / reordered entries, empty list, bare item, list of list; output side adds singleton wrappings and bare items, through decision, knowledge model and decision service output variables"));
   run.set("exhaustive", json!(true));
   run.set("type_trees", json!(types.len()));
   run.set("left_open_not_compared", json!(cnt.open.load(Ordering::Relaxed)));
